@@ -10,6 +10,7 @@ CONSTANTS
   BugH9 = TRUE
   BugH10 = TRUE
   BugMetaStale = TRUE
+  BugH11 = FALSE
   KRounds = 6
 INVARIANTS TypeOK C44Bound
 PROPERTIES C44Live C44Stable
